@@ -237,9 +237,10 @@ type respObs struct {
 	Other []string   `json:"other"` // anything a response should not contain (unknown buckets, keys, limits)
 }
 type obs struct {
-	Keys []keyObs `json:"keys"`
-	Bal  balObs   `json:"bal"`
-	Resp respObs  `json:"resp"`
+	Keys      []keyObs `json:"keys"`
+	Bal       balObs   `json:"bal"`
+	Transient []string `json:"transient"` // versions of the three records of the transient bucket in the stored state
+	Resp      respObs  `json:"resp"`
 }
 
 func noResp(res string) respObs {
@@ -298,8 +299,19 @@ func (c *kase) outs(os []*protos.TxOutput) []outObs {
 
 func (c *kase) project() obs {
 	st := c.w.node.State
-	o := obs{Keys: []keyObs{}, Resp: c.robs}
+	o := obs{Keys: []keyObs{}, Transient: []string{}, Resp: c.robs}
 	rd := st.CreateXMReader()
+	for _, k := range []string{"ContractUtxo.Inputs", "ContractUtxo.Outputs", "contractEvent"} {
+		vd, err := rd.Get(sandbox.TransientBucket, []byte(k))
+		switch {
+		case err != nil:
+			o.Transient = append(o.Transient, "err")
+		case vd == nil || len(vd.RefTxid) == 0:
+			o.Transient = append(o.Transient, "none")
+		default:
+			o.Transient = append(o.Transient, c.verName(vd.RefTxid))
+		}
+	}
 	for n := 1; n <= 3; n++ {
 		vd, err := rd.Get(c.name, keyName(n))
 		switch {
@@ -632,6 +644,38 @@ func (c *kase) tamper(p *parts, op fx.Ev) error {
 		p.cOuts = []*protos.TxOutput{{ToAddr: []byte(c.ini.Address), Amount: sum.Bytes()}}
 	case "cin_omit":
 		p.cIns = nil
+	case "cin_extra":
+		// one more utxo of the vault, declared as a contract input (transient bucket) and really spent
+		var extra *protos.TxInput
+		s0 := c.txs["s0"]
+		for off, o := range s0.TxOutputs {
+			if string(o.ToAddr) != c.vault {
+				continue
+			}
+			used := false
+			for _, in := range p.cIns {
+				if string(in.RefTxid) == string(s0.Txid) && int(in.RefOffset) == off {
+					used = true
+				}
+			}
+			if !used {
+				extra = &protos.TxInput{RefTxid: s0.Txid, RefOffset: int32(off), FromAddr: []byte(c.vault), Amount: o.Amount}
+				break
+			}
+		}
+		if extra == nil {
+			return fmt.Errorf("cin_extra: the vault has no further utxo")
+		}
+		p.cIns = append(p.cIns, extra)
+		b, err := xmodel.MarshalMessages(p.cIns)
+		if err != nil {
+			return err
+		}
+		if t := p.transient("ContractUtxo.Inputs"); t != nil {
+			t.Value = b
+		} else {
+			p.outsExt = append(p.outsExt, &protos.TxOutputExt{Bucket: sandbox.TransientBucket, Key: []byte("ContractUtxo.Inputs"), Value: b})
+		}
 	case "req_drop":
 		p.reqs = nil
 	default:
@@ -689,15 +733,20 @@ func (c *kase) build(p *parts) (*pb.Transaction, error) {
 func (c *kase) submit(op fx.Ev) (res string, extra fx.Ev, err error) {
 	extra = fx.Ev{}
 	if c.resp == nil {
-		return "", nil, fmt.Errorf("submit without a pre-execution response")
+		extra["err"] = "submit without a pre-execution response"
+		return "inapplicable", extra, nil
 	}
 	p := c.honest()
+	// A tampering that cannot be applied, or a transaction that cannot be assembled, means that the response is not the
+	// one the case was generated for (the preexec line has recorded that): reported as a class of its own, never judged here.
 	if err := c.tamper(p, op); err != nil {
-		return "", nil, err
+		extra["err"] = err.Error()
+		return "inapplicable", extra, nil
 	}
 	tx, err := c.build(p)
 	if err != nil {
-		return "", nil, err
+		extra["err"] = err.Error()
+		return "inapplicable", extra, nil
 	}
 	c.names[hex.EncodeToString(tx.Txid)] = "t"
 	// the node receives the transaction over the wire
